@@ -28,6 +28,11 @@ type crashPlan struct {
 
 func crashConfigs(kind string) []aofCfg {
 	switch kind {
+	case "db":
+		return []aofCfg{
+			{Txn: true, Resume: true, Pipeline: false, Count: 2, Bytes: 1 << 20, DbMode: "id"},
+			{Txn: false, Resume: true, Pipeline: false, Count: 2, Bytes: 1 << 20, DbMode: "shift"},
+		}
 	case "txn":
 		return []aofCfg{
 			{Txn: true, Resume: true, Pipeline: false, Count: 2, Bytes: 1 << 20, DbMode: "id"},
@@ -77,11 +82,14 @@ func crashPlans(check, tier string) []crashPlan {
 				{alpha, 3, crashConfigs(""), 1, 1, 1, []string{"s0"}},
 				{alpha, 2, crashConfigs("all"), 1, 1, 2, []string{"s0"}},
 				{alpha, 2, crashConfigs(""), 2, 2, 1, []string{"s0"}},
+				{[]string{"w1", "s1", "s0", "s2"}, 4, crashConfigs("db"), 1, 1, 1, []string{"s0"}},
 			}
 		}
 		return []crashPlan{
-			{alpha, 2, crashConfigs(""), 1, 1, 1, []string{"s0"}},
+			{[]string{"w1", "df", "s1", "s0", "t2", "ts", "p"}, 2, crashConfigs(""), 1, 1, 1, []string{"s0"}},
 			{[]string{"w1", "s1", "t2", "p"}, 3, crashConfigs(""), 0, 0, 1, []string{"s0"}},
+			// database switches around a crash: position stored in a db > 0, then the source returns to db 0
+			{[]string{"w1", "s1", "s0"}, 4, crashConfigs("db"), 0, 0, 1, []string{"s0"}},
 		}
 	case "C07":
 		alpha := []string{"w1", "s1", "t1", "p", "n", "g"}
